@@ -15,7 +15,8 @@ from harness.util import call, req, fmt
 
 PID = "C16"
 LEVEL = "exploration"
-RULE = ("Hypothesis draws (T<=3) rasters from 1x1 to ~60x60 with 1..40 zones (incl. empty zones; zone rasters dense, with holes, sparse single pixels, anti-diagonal strips or patches with a tip, the rest carrying the zone nodata), nodata/NaN share "
+RULE = ("[seventh seeded round] sub-check 'blocks': zonal.mean on ten equally shaped time-step blocks of 1.44 million pixels evaluated by 8-16 threads at once (three times) must equal the in-memory result. " +
+        "Hypothesis draws (T<=3) rasters from 1x1 to ~60x60 with 1..40 zones (incl. empty zones; zone rasters dense, with holes, sparse single pixels, anti-diagonal strips or patches with a tip, the rest carrying the zone nodata), nodata/NaN share "
         "0..100 %, int16/float32/float64 values, output dtype float32/float64, numpy and dask (time-chunked) inputs, and pixel "
         "permutations that keep (value, zone) pairs together; plus structured large rasters (one zone of 2^24+10 pixels in quick, up to "
         "5000x6000 = 3e7 pixels and 1000 zones in thorough) whose exact sums are known in closed form. Oracle: exact integer sums / "
@@ -211,7 +212,26 @@ def sub_history(case):
         req(np.array_equal(res, snap, equal_nan=True), "the zonal result obtained at step %d changed afterwards" % k, "zonal result aliased")
 
 
-SUBS = {"history": sub_history, "kernel": sub_kernel, "accessor": sub_accessor, "large": sub_large}
+def sub_blocks(case):
+    """zonal.mean on a cube whose time steps are separate, equally shaped dask blocks of about a million pixels each, evaluated by several
+    threads at once, against the in-memory call (means and counts alike)."""
+    from harness import lazyblocks
+
+    nt, ny, nx = case["shape"]
+    rng = np.random.default_rng(int(case["salt"]))  # a pure function of the case
+    cube = rng.integers(0, 2000, size=(nt, ny, nx)).astype(case.get("dtype", "int16"))
+    cube += (np.arange(nt) * 37).astype(cube.dtype)[:, None, None]  # every time step has its own level: mixing steps shows in the means
+    cube[rng.random((nt, ny, nx)) < 0.05] = -9999
+    nz = int(case["nz"])
+    zones = rng.integers(0, nz, size=(ny, nx)).astype("int16")
+    zones[rng.random((ny, nx)) < 0.1] = -1
+    xa = xr.DataArray(cube, dims=("time", "y", "x"), coords={"time": pd.date_range("2000-01-01", periods=nt, freq="10D")}, attrs={"nodata": -9999})
+    za = xr.DataArray(zones, dims=("y", "x"), attrs={"nodata": -1})
+    lazyblocks.check("zonal.mean()", lambda d: d.hdc.zonal.mean(za, list(range(nz)), dtype=case.get("odt", "float32")), xa, {"time": 1, "y": -1, "x": -1},
+                     workers=case.get("workers", 8), repeats=case.get("repeats", 3))
+
+
+SUBS = {"blocks": sub_blocks, "history": sub_history, "kernel": sub_kernel, "accessor": sub_accessor, "large": sub_large}
 
 
 @st.composite
@@ -309,6 +329,14 @@ def raster(draw, accessor=False):
 
 def run(ctx):
     rec = ctx.rec
+
+    # equally shaped time-step blocks of ~1.4 million pixels in flight at the same time (state shared between concurrent kernel calls)
+    for k in range(ctx.n(2, 6)):
+        case = {"shape": [10, 1200, 1200], "nz": [7, 40][k % 2], "salt": ctx.seed * 19 + k, "workers": [8, 16][k % 2], "dtype": ["int16", "float32"][k % 2],
+                "odt": ["float32", "float64"][k % 2], "repeats": 3}
+        rec.case("blocks", case, nontrivial=True, cls="blocks:" + case["dtype"])
+        if not ctx.run_case("blocks", case):
+            break
 
     def nontrivial(case):
         return len(case["zones"]) >= 2 and (case["share"] > 0 or len(set(case["zones"])) >= 2)
